@@ -646,6 +646,8 @@ def dependents(ck, ctx):
 def run(ck, ctx):
     from . import C14 as R14
     R14.producer_never_cleared(ck, ctx, "dependents")
+    # a consumer waits for the producer of each input only if File.input was registered for every output, implicit ones included
+    R14.add_build(ck, ctx)
     C.adapter_census(ck, ctx, "queues", ("work::", "graph::"))
     C.loops_complete(ck, ctx, "ready-recheck", [("work::Work::ready_dependents", "work::Work::recheck_ready", "the dependents of a finished step"), ("work::Work::ready_dependents", "std::collections::HashSet::insert", "the outputs' dependents")])
     SM.eff_table(ck, ctx, ["replace", "ready-push", "pending+", "pending-"])
